@@ -14,7 +14,7 @@ ID = "C09"
 META = {
     "engine": "smallscope",
     "technique": "exhaustive small-scope enumeration of models x containers x labels x validity predicates (all subsets of assignments) against a truth-table reference",
-    "text": "All models with <=3 variables and <=2 (quick) / <=3 (thorough) terms over coefficients {-1,1,2} (ties by design), in every container (raw dicts also with permuted / repeated / duplicate keys and with explicit zero coefficients on otherwise unused variables) "
+    "text": "All models with <=3 variables and <=2 (quick) / <=3 (thorough) terms over coefficients {-1,1,2} (ties by design), in every container (raw dicts also with permuted / repeated / duplicate keys and with explicit zero coefficients on otherwise unused variables); with the accept-all predicate the returned assignment(s) are edited in place and the solver is called again (same answer expected) "
             "and label scheme, are solved with every brute-force entry point; for the reduced slice every one of the 2^(2^n) validity predicates is "
             "tried. Objective, key set, minimality, the exact multiset of minimisers, constants, None on empty feasible set and argument immutability "
             "are compared with a truth-table reference.",
@@ -142,6 +142,7 @@ def check(case, st):
         return tuple(sorted(x.items(), key=repr))
 
     nontrivial = False
+    first_mask = (1 << (1 << n)) - 1       # the predicate accepting everything
     for fn in fns:
         for mask in (predicates(case["preds"], n, table) if fn != "method" else [(1 << (1 << n)) - 1]):
             allowed = [a for a in range(1 << n) if (mask >> a) & 1]
@@ -212,6 +213,24 @@ def check(case, st):
                     if got != sorted(ref_args):
                         v("minimiser-multiset", "returned minimisers %s, reference %s" % (got, sorted(ref_args)))
                 st.outcomes["%d minimisers" % len(ref_args) if ref_min is not None else "infeasible"] += 1
+                if mask == first_mask:
+                    # the result belongs to the caller: edit it in place, solve again, and the answer must be what it was
+                    pristine = snap(sol)
+                    if alls:
+                        for s_ in sol:
+                            s_["zz-caller-edit"] = 1
+                        sol.append({"zz-caller-entry": 0})
+                    else:
+                        sol["zz-caller-edit"] = 1
+                    st.transitions += 1
+                    if fn == "method":
+                        r2, _w = call(M.solve_bruteforce, alls)
+                        sol2 = r2
+                    else:
+                        r2, _w = call(getattr(qv.utils, fn), M, alls, valid)
+                        sol2 = r2[1] if not isinstance(r2, Raised) else r2
+                    if isinstance(sol2, Raised) or snap(sol2) != pristine:
+                        v("result-shared", "after the caller edited the returned assignment(s) in place, solving again returns %s instead of %s" % (short(sol2), short(pristine)))
     if nontrivial:
         st.nontrivial += 1
 
